@@ -167,7 +167,7 @@ func (d *Decoder) DecodeString() (string, error) {
 	if d.offset >= len(d.p) {
 		return "", io.ErrUnexpectedEOF
 	}
-	b, err := d.DecodeBytes()
+	b, err := d.decodeBytes()
 	if err != nil {
 		return "", fmt.Errorf("invalid data at byte %d: %w", d.offset, err)
 	}
@@ -183,8 +183,24 @@ func (d *Decoder) DecodeString() (string, error) {
 
 // DecodeBytes decodes a length-delimited slice of bytes from the stream and returns the value.
 //
+// In safe mode the returned slice is a copy; in fast mode it shares memory with the data passed to
+// the decoder.
+//
 // io.ErrUnexpectedEOF is returned if the operation would read past the end of the data.
 func (d *Decoder) DecodeBytes() ([]byte, error) {
+	b, err := d.decodeBytes()
+	if err != nil {
+		return nil, err
+	}
+	if d.mode == DecoderModeSafe {
+		// safe mode must not hand out memory that is shared with the caller's buffer
+		return append(make([]byte, 0, len(b)), b...), nil
+	}
+	return b, nil
+}
+
+// decodeBytes decodes a length-delimited field and returns the sub-slice of the input that holds the value.
+func (d *Decoder) decodeBytes() ([]byte, error) {
 	if d.offset >= len(d.p) {
 		return nil, io.ErrUnexpectedEOF
 	}
